@@ -96,12 +96,12 @@ pub fn resid360(x: f64, r: f64) -> f64 {
     (rem + e).abs()
 }
 
-fn tol<T: FlX>(x: T) -> f64 { x.ulp() + 360.0 * T::tiny() }
+pub(crate) fn tol<T: FlX>(x: T) -> f64 { x.ulp() + 360.0 * T::tiny() }
 
-const LIMIT: f64 = 1048576.0; // 2^20 ("up to a million degrees in magnitude")
+pub(crate) const LIMIT: f64 = 1048576.0; // 2^20 ("up to a million degrees in magnitude")
 
 #[derive(Default, Clone)]
-struct NormStats { n: u64, u_eq_360: u64, u_neg: u64, s_gt_180: u64, s_lt_m180: u64, s_eq_m180: u64, max_exc_ulps: f64, max_exc_ulps_underflow: f64, max_resid_ulps: f64, bad: u64 }
+pub(crate) struct NormStats { n: u64, u_eq_360: u64, u_neg: u64, s_gt_180: u64, s_lt_m180: u64, s_eq_m180: u64, max_exc_ulps: f64, max_exc_ulps_underflow: f64, max_resid_ulps: f64, bad: u64 }
 impl NormStats {
     fn merge(&mut self, o: &NormStats) {
         self.n += o.n; self.u_eq_360 += o.u_eq_360; self.u_neg += o.u_neg; self.s_gt_180 += o.s_gt_180; self.s_lt_m180 += o.s_lt_m180; self.s_eq_m180 += o.s_eq_m180;
@@ -116,7 +116,7 @@ impl NormStats {
 
 /// range + congruence clauses for one stored angle; returns a description of the first violated clause
 #[inline]
-fn norm_oracle<T: FlX>(x: T, s: T, u: T, st: &mut NormStats) -> Option<&'static str> {
+pub(crate) fn norm_oracle<T: FlX>(x: T, s: T, u: T, st: &mut NormStats) -> Option<&'static str> {
     let (xf, sf, uf) = (x.to64(), s.to64(), u.to64());
     let t = tol(x);
     st.n += 1;
@@ -168,7 +168,7 @@ fn scan_f32<H: HueApi<f32>>(out: &mut Out) -> NormStats {
 
 /// structured angles: the case splits of the two formulas (k·360, k·360+180 ± ulps), the suite's own inputs, powers of
 /// two, subnormals, integers, and random streams over bit patterns / ranges / magnitudes
-fn angles<T: FlX>(rng: &mut Rng, n_rand: usize, kstep: usize) -> Vec<T> {
+pub(crate) fn angles<T: FlX>(rng: &mut Rng, n_rand: usize, kstep: usize) -> Vec<T> {
     let mut v: Vec<T> = vec![];
     let suite = [-1000.0, -900.0, -360.5, -360.0, -359.5, -240.0, -180.5, -180.0, -179.5, -90.0, -0.5, 0.0, 0.5, 90.0, 179.5, 180.0, 180.5, 240.0, 359.5, 360.0, 360.5, 900.0, 1000.0,
         -0.0, 540.0, -540.0, 720.0, -720.0, 1e6, -1e6, LIMIT, -LIMIT, 999999.9, -999999.9, 359.296875, 359.2968, 0.703125, 1.40625, 45.0, 1e-3, -1e-3, 1e-10, -1e-10, 1e-30, -1e-30];
@@ -510,6 +510,8 @@ pub fn run(tier: &str, seed: u64, dir: &str) {
         }
         out.case(&format!("hconst u8 | | {}", <u8 as HalfRotation>::half_rotation()));
     }
+    // the forms / entry points / SIMD component types not driven above (coverage audit): `c11_more.rs`.  Called last, so that the case stream above is unchanged.
+    crate::c11_more::run_more(&mut out, &mut rng, tier);
     let mut extra = String::new();
     if tier == "thorough" {
         // every f32 bit pattern with |x| ≤ 2^20, each of the five hue types
